@@ -275,6 +275,14 @@ func loopExitObligations(fn *ssa.Function, name string, enc *Enc, exhaustive boo
 		l := loops[h]
 		okk := true
 		var pos token.Pos
+		// where the loop goes when its range or condition is exhausted: jumping
+		// there from inside the body is a break, even if that block only returns
+		normalExit := map[*ssa.BasicBlock]bool{}
+		for _, s := range h.Succs {
+			if !l.body[s] {
+				normalExit[s] = true
+			}
+		}
 		for b := range l.body {
 			if b == h {
 				continue
@@ -283,7 +291,7 @@ func loopExitObligations(fn *ssa.Function, name string, enc *Enc, exhaustive boo
 				if l.body[s] {
 					continue
 				}
-				if !exhaustive && leaves(s, 0) {
+				if !exhaustive && !normalExit[s] && leaves(s, 0) {
 					continue
 				}
 				okk = false
